@@ -7,6 +7,7 @@ outermost mutator call and compared at exit whenever the call was refused."""
 from .. import common
 
 common.setup_env()
+import sys
 import spydrnet as sdn  # noqa: E402
 
 from .. import probes, gen_ops, snapshot  # noqa: E402
@@ -23,7 +24,8 @@ ASSUMPTIONS = ["refusal = exception whose innermost spydrnet frame is an explici
                "(key failed-call-...); exceptions on valid arguments are counted and listed, not judged",
                "objects created by the refused call itself are not part of the 'before' state"]
 REQUIRED = {"refusals_checked": 1500, "mutators_refused": 25, "lookup_snapshots": 200}
-PROBES = {}
+BADPOS = "non-integer-position-fails-late"
+PROBES = {BADPOS: lambda: gen_ops.probe_bad_position("name")}
 FENCES = ()
 ALPHABET = gen_ops.NAMES + gen_ops.IDS
 
@@ -98,7 +100,7 @@ def run_case(ctx, i, rng):
     policy = "EDIF" if i % 2 else "DEFAULT"
     sdn.namespace_manager.default = policy
     try:
-        eng = gen_ops.Engine(rng, "hostile", policy, fences=FENCES)
+        eng = gen_ops.Engine(rng, "hostile", policy, fences=tuple(FENCES) + (("bad_position",) if common.fenced(sys.modules[__name__], BADPOS) else ()))
         m = C14Monitor(ctx, with_lookups=(i % 3 == 0))
         gen_ops.run_history(eng, rng.randint(40, 100) if m.with_lookups else rng.randint(60, 160), [m])
         ctx.fingerprint([(e[1], e[3]) for e in eng.log], m.refused >= 15 and len(m.mutators) >= 6)
